@@ -40,7 +40,10 @@ RULE = ('state = (table, format, dialect/encoder arguments, text encoding, targe
         'appended table. Target reuse: the same source object / path is written by to* twice (first rendering '
         'longer, equal, shorter than the second; all 16 ordered pairs of 4 tables), read back and appended to, '
         'for csv, tsv, pickle, json (array, lines) and jsonarrays on every target kind - the second to* must '
-        'replace the first completely. Excluded: states on which csv.writer itself raises '
+        'replace the first completely. Header clause: write_header on/off x reader header= in {absent, (), [], 1, 2, 3 '
+        'names as tuple or list} on every typed table with <= 1 data row and every table with a zero-field or non-text '
+        'header row (thorough: also every one-column typed table) x 34 call forms (MemorySource) and default forms x 4 target kinds x 3 '
+        'codecs, and on to* + append* sequences of such tables. Excluded: states on which csv.writer itself raises '
         'csv.Error (QUOTE_NONE without escapechar, lone empty field), numeric cells under QUOTE_NONNUMERIC (read '
         'back as float by the csv module), text not encodable in the chosen codec (ascii / locale default are '
         'run on the ASCII subset, latin-1 on code points < 256), QUOTE_STRINGS/QUOTE_NOTNULL (reader side differs between 3.12 and 3.13), '
@@ -60,6 +63,9 @@ BOM_CODECS = ('utf-16', 'utf-32', 'utf-8-sig')
 KINDS = ['mem', 'path', 'gz', 'bz2']
 HDR = ('h1', 'h2')
 FLAGS = [(True, None), (False, None), (True, HDR), (False, HDR)]
+# the reader's header= argument as an axis of its own (part H): absent, EMPTY (tuple and list: a header row with
+# zero fields is a header row), one / two / three names, given as tuple or list
+HARGS = [None, (), [], ('h1',), ['h1', 'h2'], ('h1', 'h2', 'h3')]
 EXT = {'path': '', 'gz': '.gz', 'bz2': '.bz2'}
 PROTOCOLS = [-1, 0, 2]
 
@@ -69,8 +75,8 @@ CROSSING = {
              'errors in {replace, ignore}]; hostile strings(<=2) x 12 placements: [34 call forms on MemorySource/utf-8] + [2 default forms x 5 codecs x 4 target '
              'kinds x 2 header-flag combinations (write_header, header= both default / both flipped)]; line-boundary strings(<=2) x 12 placements: [34 forms on MemorySource/utf-8] + '
              '[2 default forms x 5 codecs x 4 kinds]; 2x2 grids: 2 default forms on MemorySource/utf-8; typed/ragged tables: '
-             '34 forms x 4 flag combinations on MemorySource/utf-8; append: 39 sequences x all write_header flags x 2 '
-             'dialects x 7 codecs x 4 target kinds + all 32 explicit dialects (utf-8); append with hostile strings(<=2) in the '
+             '34 forms x 2 flag combinations on MemorySource/utf-8 (all write_header x header= combinations: part H); append: 39 sequences x all write_header flags x 2 '
+             'dialects x 7 codecs x 4 target kinds + all 32 explicit dialects (utf-8, MemorySource and .gz); append with hostile strings(<=2) in the '
              'written / appended table x 34 forms x 3 flag combinations on MemorySource and .gz; target reuse: 16 (prior, table) '
              'pairs x [read back, 2 appended tables] x write_header x {3 dialects x 3 codecs | 3 pickle protocols | json array, '
              'lines | jsonarrays with/without header} x 4 target kinds',
@@ -175,7 +181,20 @@ def typed_tables(seed):
         out.append((h,))
         out.append((h, (f,)))
         out.append((h, (), (f, 1, None)))
+    # zero-field header rows on ragged tables (what etl.empty() and header-less data look like)
+    out.append(((), (f, 'k'), (), ('c',)))
+    out.append(((), ()))
+    out.append(((), (), ()))
+    out.append(((), (None,), (f, 'k', 'm')))
     return out
+
+
+def header_axis_tables(seed, tier):
+    """Tables for the write_header / header= clause: every typed table with at most one data row, every table
+    whose header row is unusual (zero fields, non-text names); thorough adds every one-column typed table."""
+    T = typed_tables(seed)
+    return [t for t in T if len(t) <= 2 or len(t[0]) == 0 or not all(isinstance(h, str) for h in t[0])
+            or (tier != 'quick' and len(t[0]) == 1)]
 
 
 def append_tables(seed):
@@ -424,7 +443,7 @@ def jsonarrays_case(table, kind, output_header, ensure_ascii, prior=None):
     return None
 
 
-def append_case(fmt, tables, whs, kind, enc, dialect, protocol, prior=None):
+def append_case(fmt, tables, whs, kind, enc, dialect, protocol, prior=None, hdr=None):
     """to*(tables[0]) then append*(tables[1:]) on target A; to*(concatenation) on target B.  With `prior`,
     target A (the same source object / path) has been written with to*(prior) before."""
     cat = ref.concat_rows(tables[0], whs[0], list(zip(tables[1:], whs[1:])))
@@ -436,6 +455,9 @@ def append_case(fmt, tables, whs, kind, enc, dialect, protocol, prior=None):
         kw = dict(csvargs_of(dialect), encoding=enc)
         rkw = dict(kw)
         exp = ref.csv_rows(cat)
+        if hdr is not None:         # the reader's header= argument adds exactly that row in front
+            rkw['header'] = hdr
+            exp = [tuple(hdr)] + exp
     if fmt != 'pickle':
         # the exclusion is decided by the reference: csv.writer itself refuses these rows with these arguments
         full = _full_csvargs(fmt, csvargs_of(dialect))
@@ -474,7 +496,7 @@ def replay(case):
     if k == 'csv':
         hdr = case['hdr']
         r = csv_case(case['fn'], tb(case['table']), case['target'], case['enc'], case['wh'],
-                     None if hdr is None else tuple(hdr),
+                     hdr,
                      None if case['dialect'] is None else tuple(case['dialect']), prior=prior,
                      rerrors=case.get('rerrors'))
     elif k == 'pickle':
@@ -488,7 +510,7 @@ def replay(case):
     elif k == 'append':
         r = append_case(case['fmt'], [tb(t) for t in case['tables']], list(case['whs']), case['target'],
                         case['enc'], None if case['dialect'] is None else tuple(case['dialect']),
-                        case['protocol'], prior=prior)
+                        case['protocol'], prior=prior, hdr=case.get('hdr'))
     else:
         raise ValueError(k)
     if r is None or r == 'excluded':
@@ -573,6 +595,7 @@ def setup(tier, seed):
         'LB': boundary_strings(seed, L), 'LB2': boundary_strings(seed, 2),
         'Z': signature_strings(seed, L), 'Z2': signature_strings(seed, 2),
         'typed': typed_tables(seed), 'app': append_tables(seed), 'reuse': reuse_tables(seed),
+        'hdr': header_axis_tables(seed, tier),
         'pickle': pickle_tables(seed), 'json': json_tables(seed, 2 if tier == 'quick' else 3),
     })
 
@@ -584,6 +607,7 @@ def bounds(tier, seed):
             'placements_per_string': 12, 'grid_tables': 2 * 12 ** 4, 'typed_tables': len(_G['typed']),
             'pickle_tables': len(_G['pickle']), 'json_tables': len(_G['json']),
             'append_base_tables': len(_G['app']), 'reuse_tables': len(_G['reuse']),
+            'header_axis_tables': len(_G['hdr']), 'header_arguments': [repr(h) for h in HARGS],
             'reuse_pairs': len(_G['reuse']) ** 2,
             'append_sequences': 3 * (1 + 3 + 9) if tier == 'quick' else 6 * (1 + 6 + 36),
             'csv_forms': len(FORMS), 'encodings': [str(e) for e in ENCS], 'append_encodings': [str(e) for e in APPEND_ENCS],
@@ -637,6 +661,8 @@ def items(tier, seed):
         out += [('C', 'all', lo, hi) for lo, hi in _slices(len(_G['typed']), 20)]
     out += [('D', fmt, kind, i) for fmt in ('csv', 'tsv', 'pickle') for kind in KINDS
             for i in range(3 if tier == 'quick' else 6)]
+    out += [('H', lo, hi) for lo, hi in _slices(len(_G['hdr']), 10 if tier == 'quick' else 25)]
+    out += [('HA', fmt) for fmt in ('csv', 'tsv')]
     out += [('DA', lo, hi) for lo, hi in _slices(len(_G['S2']), 8 if tier == 'quick' else 4)]
     out += [('R', fmt, kind) for fmt in ('csv', 'tsv', 'pickle', 'json', 'jsonarrays') for kind in KINDS]
     out += [('E', lo, hi) for lo, hi in _slices(len(_G['pickle']), 150 if tier == 'quick' else 100)]
@@ -652,7 +678,7 @@ def cost(item):
         return {'dialects': 3, 'env': 4, 'envlite': 6, 'full': 9, 'zmem': 3, 'zenv': 4, 'zfull': 9}[item[1]]
     if p == 'B':
         return 8 if item[3] == 'all' else 2
-    return {'C': 5, 'D': 2, 'DA': 3, 'R': 2, 'E': 3, 'F': 3, 'G': 1}[p]
+    return {'C': 5, 'D': 2, 'DA': 3, 'R': 2, 'E': 3, 'F': 3, 'G': 1, 'H': 4, 'HA': 1}[p]
 
 
 def _cfgs_A(name):
@@ -778,7 +804,8 @@ def run_item(item, acc):
     elif p == 'C':
         _, which, lo, hi = item
         if which == 'mem':
-            cfgs = [(fn, d, 'mem', 'utf-8', wh, hdr) for fn, d in FORMS for wh, hdr in FLAGS]
+            # (all header-flag / header= combinations are crossed in part H)
+            cfgs = [(fn, d, 'mem', 'utf-8', wh, hdr) for fn, d in FORMS for wh, hdr in (FLAGS[0], FLAGS[3])]
         else:
             cfgs = [(fn, d, kind, 'utf-8', wh, hdr) for fn, d in FORMS for kind in KINDS for wh, hdr in FLAGS]
             cfgs += [(fn, d, kind, enc, wh, hdr) for fn, d in FORMS[:2] for enc in ENCS[1:] for kind in KINDS
@@ -788,6 +815,10 @@ def run_item(item, acc):
         acc.sample({'part': 'C', 'table': _G['typed'][lo], 'configurations': len(cfgs)}, 1)
     elif p == 'D':
         _run_append(acc, item[1], item[2], item[3])
+    elif p == 'H':
+        _run_header_axis(acc, item[1], item[2])
+    elif p == 'HA':
+        _run_header_append(acc, item[1])
     elif p == 'DA':
         _run_append_dialects(acc, item[1], item[2])
     elif p == 'R':
@@ -802,7 +833,7 @@ def run_item(item, acc):
         raise ValueError(item)
 
 
-def _do_append(acc, fmt, seq, whs, kind, enc, d, pr, prior=None):
+def _do_append(acc, fmt, seq, whs, kind, enc, d, pr, prior=None, hdr=None):
     """One to* (+ append*) sequence on one target; counts, excludes, records."""
     k = len(seq) - 1
     cat = ref.concat_rows(seq[0], whs[0], list(zip(seq[1:], whs[1:])))
@@ -817,7 +848,7 @@ def _do_append(acc, fmt, seq, whs, kind, enc, d, pr, prior=None):
             return
     acc.states += 1
     acc.transitions += k + 3 + (1 if prior is not None else 0)
-    r = append_case(fmt, list(seq), list(whs), kind, enc, d, pr, prior=prior)
+    r = append_case(fmt, list(seq), list(whs), kind, enc, d, pr, prior=prior, hdr=hdr)
     if r == 'excluded':
         acc.counters['excluded:csv.writer raises csv.Error'] += 1
         return
@@ -831,14 +862,42 @@ def _do_append(acc, fmt, seq, whs, kind, enc, d, pr, prior=None):
         case = {'kind': 'append', 'fmt': fmt, 'tables': list(seq), 'whs': list(whs), 'target': kind,
                 'enc': enc, 'dialect': d, 'protocol': pr}
         what = 'append (to* + append*)'
+        if hdr is not None:
+            case['hdr'] = hdr
         if prior is not None:
             case['prior'] = prior
             what = 'append on a reused target (to*, to* [+ append*] on one target)'
         acc.violation('%s %s on %s | %s' % ('pickle' if fmt == 'pickle' else 'csv', what, _where(kind, enc), sig),
                       case, exp, obs,
-                      '%sto%s then %d x append%s (write_header flags %r) on a %s target, encoding=%r, %r'
+                      '%sto%s then %d x append%s (write_header flags %r) on a %s target, encoding=%r, %r%s'
                       % ('to%s(%r) on the same target, then ' % (fmt, prior) if prior is not None else '',
-                         fmt, k, fmt, tuple(whs), kind, enc, csvargs_of(d) if fmt != 'pickle' else {'protocol': pr}))
+                         fmt, k, fmt, tuple(whs), kind, enc, csvargs_of(d) if fmt != 'pickle' else {'protocol': pr},
+                         '' if hdr is None else ', read back with header=%r' % (hdr,)))
+
+
+def _run_header_axis(acc, lo, hi):
+    """Part H: write_header x the reader's header= argument (absent, empty, 1-3 names) on tables incl. zero-field
+    header rows; every call form on MemorySource, the default forms on every target kind x 3 codecs."""
+    cfgs = [(fn, d, 'mem', 'utf-8', wh, h) for fn, d in FORMS for wh in (True, False) for h in HARGS]
+    cfgs += [(fn, d, kind, enc, wh, h) for fn, d in FORMS[:2] for kind in KINDS for enc in ('utf-8', 'utf-16', None)
+             for wh in (True, False) for h in HARGS if not (kind == 'mem' and enc == 'utf-8')]
+    for table in _G['hdr'][lo:hi]:
+        _run_csv(acc, table, cfgs, 'H')
+    acc.sample({'part': 'H', 'table': _G['hdr'][lo], 'configurations': len(cfgs)}, 1)
+
+
+def _run_header_append(acc, fmt):
+    """Part HA: to* + append* of tables with zero-field / ordinary header rows, read back with every header=."""
+    f = _G['f']
+    firsts = [((),), ((), (f, 'k')), ((f, 'k'),), ((f, 'k'), ('r1',))]
+    later = [((), ('c',)), ((), (), (f,)), ((f, 'k'), ('a1', 'a2'))]
+    kinds = KINDS if _G['tier'] != 'quick' else ('mem', 'path')
+    for t0 in firsts:
+        for t1 in later:
+            for whs in itertools.product((True, False), repeat=2):
+                for h in HARGS:
+                    for kind in kinds:
+                        _do_append(acc, fmt, (t0, t1), whs, kind, 'utf-8', None, None, hdr=h)
 
 
 def _run_append(acc, fmt, kind, first):
@@ -850,7 +909,8 @@ def _run_append(acc, fmt, kind, first):
     else:
         dialects = [None, (';', "'", QA)] + ([('|', '"', QM), (',', '"', QNN)] if thorough else [])
         axes = [(enc, d, None) for d in dialects for enc in APPEND_ENCS]
-        if fmt == 'csv':      # every explicit dialect (utf-8); the tsv functions only add a default on top
+        if fmt == 'csv' and (thorough or kind in ('mem', 'gz')):
+            # every explicit dialect (utf-8); the tsv functions only add a default on top
             axes += [('utf-8', d, None) for d in DIALECTS if d not in dialects]
     later = tabs if thorough else tabs[3:]
     seqs = [(tabs[first],) + rest for k in range(0, 3) for rest in itertools.product(later, repeat=k)]
